@@ -158,7 +158,7 @@ PROPS = {
         "assumptions": [],
     },
     "C02": {
-        "lean": ["Knut.Properties.C02", "Knut.Properties.C02Close", "Knut.Properties.C02Command", "Knut.FactsAgree.TransProcess", "Knut.FactsAgree.TransQuery", "Knut.FactsAgree.TransAmountsSum", "Knut.FactsAgree.TransReport", "Knut.FactsAgree.TransReportTotals", "Knut.FactsAgree.TransReportSort", "Knut.FactsAgree.TransRender", "Knut.FactsAgree.TransRenderVals", "Knut.FactsAgree.TransMapping", "Knut.FactsAgree.TransSwapType", "Knut.FactsAgree.TransBalanceCmd"],
+        "lean": ["Knut.Properties.C02", "Knut.Properties.C02Close", "Knut.Properties.C02Command", "Knut.FactsAgree.TransProcess", "Knut.FactsAgree.TransQuery", "Knut.FactsAgree.TransAmountsSum", "Knut.FactsAgree.TransReport", "Knut.FactsAgree.TransReportTotals", "Knut.FactsAgree.TransReportSort", "Knut.FactsAgree.TransRender", "Knut.FactsAgree.TransRenderVals", "Knut.FactsAgree.TransMapping", "Knut.FactsAgree.TransSwapType", "Knut.FactsAgree.TransBalanceCmd", "Knut.Properties.C02Go"],
         "level": "proof",
         "claim": "Spec.ledgerEntries (Spec/Ledger.lean) defines the report independently of the pipeline: window bookings mapped/filtered/aligned plus, with closing, the transfer of "
                  "each income/expense/equity total booked in [previous closing day, s) to Equity:Equity at every shown period start. Proved for all journals and flags: C02_noclose (without "
@@ -182,7 +182,7 @@ PROPS = {
         "assumptions": ["unvalued reports only (valued ones: C01/C03)"],
     },
     "C01": {
-        "lean": ["Knut.Properties.C01", "Knut.Properties.C01Table", "Knut.FactsAgree.TransAccount", "Knut.FactsAgree.TransPosting", "Knut.FactsAgree.TransTransaction", "Knut.FactsAgree.TransProcess", "Knut.FactsAgree.TransQuery", "Knut.FactsAgree.TransAmountsSum", "Knut.FactsAgree.TransReport", "Knut.FactsAgree.TransReportTotals", "Knut.FactsAgree.TransReportSort", "Knut.FactsAgree.TransRender", "Knut.FactsAgree.TransRenderVals", "Knut.FactsAgree.TransMapping", "Knut.FactsAgree.TransSwapType", "Knut.FactsAgree.TransBalanceCmd"],
+        "lean": ["Knut.Properties.C01", "Knut.Properties.C01Table", "Knut.FactsAgree.TransAccount", "Knut.FactsAgree.TransPosting", "Knut.FactsAgree.TransTransaction", "Knut.FactsAgree.TransProcess", "Knut.FactsAgree.TransQuery", "Knut.FactsAgree.TransAmountsSum", "Knut.FactsAgree.TransReport", "Knut.FactsAgree.TransReportTotals", "Knut.FactsAgree.TransReportSort", "Knut.FactsAgree.TransRender", "Knut.FactsAgree.TransRenderVals", "Knut.FactsAgree.TransMapping", "Knut.FactsAgree.TransSwapType", "Knut.FactsAgree.TransBalanceCmd", "Knut.Properties.C01Go"],
         "level": "proof",
         "claim": "Lean theorems over the model of the whole balance pipeline (check, ComputePrices, Valuate with daily value adjustments, Filter, CloseAccounts, Query, report totals): "
                  "C01_entries_cancel (for every journal made of posting pairs, every window/interval/--last/--diff/--close/--remap/-m level>=1, valued or not, without filters, the report inserts "
